@@ -172,3 +172,13 @@ Fixpoint frags_contiguous (t : Z) (frags : list frag) : Prop :=
   | [] => True
   | f :: r => f_tfdt f = t /\ frags_contiguous (t + sum_durs (f_samples f)) r
   end.
+
+(** ** [writeChunkedSegment] from the chunk duration to the chunk list.  [guarded] says whether the
+    tree under test has the guard [if chunkDur <= 0 { return ... errBadChunkDur }] in front of
+    [chunkSegment] (proposed_fixes/C09-chunkdur-guard.diff; answered 400).  The pinned tree has
+    not ([guarded = false]); the harness determines the variant with one probe request and every
+    other case is compared with that variant. *)
+Definition chunksOf (guarded : bool) (fs : list sample) (hasStyp : bool) (newTime newNr newDur C : Z)
+  : res (list chunk) :=
+  if guarded && (C <=? 0) then Err "chunk duration not positive"
+  else chunkSegment fs hasStyp newTime newNr newDur C.
